@@ -116,11 +116,12 @@ def obligations(tier, seed):
                     continue
                 if pname == "async" and b == "pickle":
                     continue
+                full = tier == "thorough" and b == "none" and not comp
                 obs.append({"name": "hist/%s/compress=%s/boundary=%s" % (pname, comp, b), "fn": "ob_hist", "mode": "S",
                             "params": {"programs": pname, "compress": comp, "boundary": b,
-                                       "full_universe": tier == "thorough" and b == "none" and not comp, "fix_form2": True,
+                                       "full_universe": full, "fix_form2": True,
                                        "npairs": 8 if tier == "quick" else len(PAIRS)},
                             "timeout": 600 if tier == "quick" else 3000,
                             "bounds": "3-call histories: forms 6x6, %s value pairs x swap, default vs spelled b, direct vs "
-                                      "shelved" % ("all 121" if tier == "thorough" else "%d near-colliding" % len(PAIRS))})
+                                      "shelved" % ("all 121" if full else "%d near-colliding" % (8 if tier == "quick" else len(PAIRS)))})
     return obs
